@@ -90,10 +90,37 @@ pub struct HandleRec {
     pub op: usize,
 }
 
-fn dbg_num<T: std::fmt::Debug>(t: &T) -> u32 {
-    let s = format!("{:?}", t);
-    let digits: String = s.chars().filter(|c| c.is_ascii_digit()).collect();
-    digits.parse().expect("handle Debug output carries its offset")
+// Handles are opaque. Their value is read back through the public API only -- through the reference
+// field of a node built from the handle -- never through their Debug text, which nothing specifies.
+fn proc_handle_value(h: &pptt::ProcessorHandle) -> u32 {
+    // parent field of a processor node: bytes 8..12
+    let b = ser(&pptt::ProcessorNode::new(Some(h), 0));
+    u32::from_le_bytes([b[8], b[9], b[10], b[11]])
+}
+
+fn cache_handle_value(h: &pptt::CacheHandle) -> u32 {
+    // first private resource of a processor node: bytes 20..24
+    let b = ser(&pptt::ProcessorNode::new(None, 0).add_cache(h));
+    u32::from_le_bytes([b[20], b[21], b[22], b[23]])
+}
+
+/// an ISA-string handle of a scratch table (hart-info nodes cannot be built without one)
+fn scratch_isa() -> rhct::IsaStringHandle {
+    let mut t = rhct::RHCT::new(*b"OEMIDX", *b"TABLEID0", 1, 1);
+    t.add_isa_string("rv64")
+}
+
+fn isa_handle_value(h: &rhct::IsaStringHandle) -> u32 {
+    // first offset of a hart-info node: bytes 12..16
+    let b = ser(&rhct::HartInfoNode::new(0, h));
+    u32::from_le_bytes([b[12], b[13], b[14], b[15]])
+}
+
+fn cmo_handle_value(h: &rhct::CmoHandle) -> u32 {
+    // second offset of a hart-info node: bytes 16..20
+    let isa = scratch_isa();
+    let b = ser(&rhct::HartInfoNode::new(0, &isa).with_cmo(h));
+    u32::from_le_bytes([b[16], b[17], b[18], b[19]])
 }
 
 fn iommu_offset_value(h: rimt::IommuOffset) -> u32 {
@@ -910,18 +937,18 @@ impl Live {
             (Live::Pptt(t, caches, _), Op::PpttCache { sets }) => {
                 let n = mk_cache_node(sets, caches);
                 let h = t.add_cache(n);
-                hs.push(HandleRec { kind: HKind::Cache, value: dbg_num(&h), op: idx });
+                hs.push(HandleRec { kind: HKind::Cache, value: cache_handle_value(&h), op: idx });
                 caches.push(Some(h));
             }
             (Live::Pptt(t, caches, procs), Op::PpttProc { parent, id, flags, res, raw_flags }) => {
                 let n = mk_proc_node(parent, *id, flags, res, raw_flags, caches, procs);
                 let h = t.add_processor(n);
-                hs.push(HandleRec { kind: HKind::Proc, value: dbg_num(&h), op: idx });
+                hs.push(HandleRec { kind: HKind::Proc, value: proc_handle_value(&h), op: idx });
                 procs.push(Some(h));
             }
             (Live::Rhct(t, isas, _), Op::RhctIsa(len)) => {
                 let h = t.add_isa_string(static_text(*len as usize));
-                hs.push(HandleRec { kind: HKind::Isa, value: dbg_num(&h), op: idx });
+                hs.push(HandleRec { kind: HKind::Isa, value: isa_handle_value(&h), op: idx });
                 isas.push(Some(h));
             }
             (Live::Rhct(t, ..), Op::RhctMmu(s)) => t.add_mmu_node(match s {
@@ -931,7 +958,7 @@ impl Live {
             }),
             (Live::Rhct(t, _, cmos), Op::RhctCmo(a, b, c)) => {
                 let h = t.add_cmo(rhct::CmoNode::new(*a, *b, *c));
-                hs.push(HandleRec { kind: HKind::Cmo, value: dbg_num(&h), op: idx });
+                hs.push(HandleRec { kind: HKind::Cmo, value: cmo_handle_value(&h), op: idx });
                 cmos.push(Some(h));
             }
             (Live::Rhct(t, isas, cmos), Op::RhctHart { uid, isa, cmos: cs }) => {
